@@ -394,6 +394,15 @@ func (v *vc) reportViolation(prop string, ob *obligation, outDir string, opts so
 			rep["replay"] = info
 		}
 	}
+	if suffix != "" {
+		// a hand-written witness template realising the counterexample class of this obligation
+		if ok, info := v.replayTemplate(ob, work, rep); ok {
+			suffix = ""
+			rep["replay"] = info
+		} else if info != "" {
+			rep["template_replay"] = info
+		}
+	}
 	data, _ := json.MarshalIndent(rep, "", " ")
 	os.WriteFile(path, data, 0o644)
 	fmt.Printf("VIOLATION property=%s replay=%s%s\n", prop, path, suffix)
